@@ -96,19 +96,19 @@ Definition hash_do (hash_of : bool -> bytes -> Z) (root : json) (fields : list (
 
 (* ---- modify -----------------------------------------------------------------------------------
    a substitution is a list of ops: raw text | field (path, filters); filters without regexp here  *)
-Inductive filter :=
+Inductive ffilter :=
 | FCut (first : bool) (count : Z)
 | FTrimTo (mode : Z) (cutset : bytes)
 | FTrim (mode : Z) (cutset : bytes).
-Inductive sop := SRaw (b : bytes) | SField (path : list bytes) (fl : list filter).
+Inductive sop := SRaw (b : bytes) | SField (path : list bytes) (fl : list ffilter).
 
-Definition apply_filter (f : filter) (src : bytes) : res bytes :=
+Definition apply_filter (f : ffilter) (src : bytes) : res bytes :=
   match f with
   | FCut first count => cut_apply first count src
   | FTrimTo mode cs => trim_to_apply mode cs src
   | FTrim mode cs => Ok (trim_apply mode cs src)
   end.
-Fixpoint apply_filters (fl : list filter) (src : bytes) : res bytes :=
+Fixpoint apply_filters (fl : list ffilter) (src : bytes) : res bytes :=
   match fl with [] => Ok src | f :: r => s1 <- apply_filter f src ;; apply_filters r s1 end.
 
 Fixpoint subst_ops (root : json) (ops : list sop) (acc : list bytes) : res (list bytes) :=
@@ -152,22 +152,27 @@ Fixpoint pt_chain (path : list bytes) : list ptree :=
 (* (l *pathTree) add(path), on the children of the current node. While more than one element is
    left (depth < len(path)-1) an existing child named path[depth] is entered; the rest of the path
    is appended as a chain of new nodes. path[depth] is an [idx]. *)
+(* the search  for _, c := range cur.children { if c.data == path[depth] { cur = c; ... } }  with the
+   rest of add performed on the child found ([rec]); None: no child has that name *)
+Fixpoint pt_enter (rec : list ptree -> res (list ptree)) (k : bytes) (cs : list ptree)
+  : res (option (list ptree)) :=
+  match cs with
+  | [] => Ok None
+  | PNode d sub :: r =>
+      if bytes_eqb d k then
+        sub' <- rec sub ;; Ok (Some (PNode d sub' :: r))
+      else
+        r' <- pt_enter rec k r ;;
+        match r' with Some r'' => Ok (Some (PNode d sub :: r'')) | None => Ok None end
+  end.
+
 Fixpoint pt_add (fuel : nat) (children : list ptree) (path : list bytes) (depth : Z) : res (list ptree) :=
   match fuel with
   | O => OutOfFuel
   | S f =>
       if depth <? len path - 1 then
         k <- idx path depth ;;
-        o <- (fix enter (cs : list ptree) : res (option (list ptree)) :=
-                match cs with
-                | [] => Ok None
-                | PNode d sub :: r =>
-                    if bytes_eqb d k then
-                      sub' <- pt_add f sub path (depth + 1) ;; Ok (Some (PNode d sub' :: r))
-                    else
-                      r' <- enter r ;;
-                      match r' with Some r'' => Ok (Some (PNode d sub :: r'')) | None => Ok None end
-                end) children ;;
+        o <- pt_enter (fun sub => pt_add f sub path (depth + 1)) k children ;;
         match o with
         | Some cs' => Ok cs'
         | None => rest <- slice_from path depth ;; Ok (children ++ pt_chain rest)
@@ -198,28 +203,31 @@ Definition conv_value (v : json) : json :=
 Definition root_add (root : json) (k : bytes) (v : json) : json :=
   match root with JObj fs => JObj (set_field fs k v) | _ => root end.
 
-(* extract(root, decoder, fields, prefix): iterate the object's fields in document order;
-   processed counts the path nodes of this level still to be found *)
+(* the loop over the object's fields in document order; [processed] counts the path nodes of this
+   level still to be found; [rec] = extract on the nested value *)
+Fixpoint ext_iter (rec : json -> json -> list ptree -> res json) (fields : list ptree)
+  (fs : list (bytes * json)) (root : json) (processed : Z) : res json :=
+  match fs with
+  | [] => Ok root
+  | (k, v) :: r =>
+      match pt_find fields k with
+      | None => ext_iter rec fields r root processed
+      | Some n =>
+          root1 <- (match pt_children n with
+                    | [] => Ok (root_add root (prefix ++ pt_data n) (conv_value v))
+                    | sub => rec root v sub
+                    end) ;;
+          if processed - 1 =? 0 then Ok root1 else ext_iter rec fields r root1 (processed - 1)
+      end
+  end.
+
+(* extract(root, decoder, fields, prefix) *)
 Fixpoint extract (fuel : nat) (root : json) (doc : json) (fields : list ptree) : res json :=
   match fuel with
   | O => OutOfFuel
   | S f =>
       match doc with
-      | JObj fs =>
-          (fix iter (fs : list (bytes * json)) (root : json) (processed : Z) : res json :=
-             match fs with
-             | [] => Ok root
-             | (k, v) :: r =>
-                 match pt_find fields k with
-                 | None => iter r root processed
-                 | Some n =>
-                     root1 <- (match pt_children n with
-                               | [] => Ok (root_add root (prefix ++ pt_data n) (conv_value v))
-                               | sub => extract f root v sub
-                               end) ;;
-                     if processed - 1 =? 0 then Ok root1 else iter r root1 (processed - 1)
-                 end
-             end) fs root (len fields)
+      | JObj fs => ext_iter (extract f) fields fs root (len fields)
       | _ => Ok root
       end
   end.
